@@ -10,8 +10,8 @@ CONSTANTS
   MaxPauses = 1
   Kinds = {"waive", "stale", "equal", "future", "neg"}
   Pols = {"leader", "none"}
-  Mut = "none"
-INVARIANTS TypeOK C16_Dense C16_Once C16_StoredAtExpected C16_AckOffset C16_RejectNotStored C16_RejectJustified C16_WaivedAccepted C16_OneWinner C16_NoneNotSilent I_Resolved I_NonOccAll I_Order I_RejectWindow
+  Mut = "none_paused"
+INVARIANTS TypeOK C16_Dense C16_Once C16_StoredAtExpected C16_AckOffset C16_RejectNotStored C16_RejectJustified C16_WaivedAccepted C16_OneWinner C16_NoneNotSilent
 PROPERTIES StepsOK LogGrows
 VIEW MCView
 CHECK_DEADLOCK FALSE
